@@ -361,16 +361,17 @@ theorem C01_fulltm_zero_is_final (s : TMF.State) (m : TMF.Minter) (hm : s.minter
       obtain ⟨m', h1, h2, h3⟩ := ih (TMF.step' s op) m1 hm' hfin.1
       exact ⟨m', h1, h2, h3.trans hfin.2⟩
 
-/-! ## C17 — the deposit ledger (`LP.TM`)
+/-! ## C17 — the deposit ledger (`LP.TM`, extended operations `TM.OpX`)
 
 Projection `TMF.tmOf` (Lemmas/TokenMergeFullLedger.lean): minter address, admin, the source contracts and their owner tables,
 `mint_tokens`, start, limits, the mintable ids in position order, `MINTER_ADDRS`, `RECEIVED_TOKENS`, the minter's own collection as
-an owner map; source-collection approvals / operators are empty (the composite sends by owners).  Translation `TMF.tmOps`: forward
-simulation with stuttering; every accepted composite message is ZERO or ONE aspect op (`tm_sim_step`), the aspect `picked` witness
-is the id the composite's position witness stands for, every aspect `w` flag is `true`.  Hypotheses: the supply invariant `FInv`
-(a theorem for every history from creation: `C01_fulltm_inv`; preserved by every step) and `TmQuiet` — the four message kinds the
-aspect model has no counterpart for (a new source contract, `Shuffle`, holder transfer / burn in the minter's own collection) and
-governance changing `max_per_address_limit` / the airdrop amount, which are frozen in the aspect state. -/
+an owner map, the two factory parameters the aspect state carries; source-collection approvals / operators are empty (the
+composite sends by owners).  Translation `TMF.tmOps : List TM.OpX`: forward simulation with stuttering; every accepted composite
+message is ZERO or ONE aspect op (`tm_sim_step`): the core ops wrapped in `.core`, `Shuffle` ↦ `.shuffle true perm`, holder
+`TransferNft` / `Burn` in the minter's own collection ↦ `.tgtTransfer` / `.tgtBurn`, `sudo UpdateParams` ↦ `.govern`; the aspect
+`picked` witness is the id the composite's position witness stands for, every aspect `w` flag is `true`.  Hypotheses: the supply
+invariant `FInv` (a theorem for every history from creation: `C01_fulltm_inv`; preserved by every step) and `TmQuiet` = "no NEW
+source contract appears" (`TM.State.colls` is fixed — the only message kind left without an aspect counterpart). -/
 
 namespace TMF
 
@@ -387,32 +388,32 @@ theorem finv_step (s : State) (m : Minter) (hm : s.minter = some m) (hi : Supply
 
 /-- one-step simulation, both outcomes -/
 theorem tm_sim (s : State) (m : Minter) (hm : s.minter = some m) (hi : Supply.FInv m.supply) (op : Op) (hq : TmQuiet s op) :
-    ∃ m', (step' s op).minter = some m' ∧ TM.run (tmOf s m) (tmOps s m op) = tmOf (step' s op) m' := by
+    ∃ m', (step' s op).minter = some m' ∧ TM.runX (tmOf s m) (tmOps s m op) = tmOf (step' s op) m' := by
   rcases step'_cases s op with ⟨s', hok, hs'⟩ | ⟨⟨e, herr⟩, hs'⟩
   · rw [hs']; exact tm_sim_ok hm hok hi hq
   · rw [hs']
-    exact ⟨m, hm, by simp [tmOps, accepted_of_err herr, TM.run]⟩
+    exact ⟨m, hm, by simp [tmOps, accepted_of_err herr, TM.runX]⟩
 
-def tmRunOps (s : State) : List Op → List TM.Op
+def tmRunOps (s : State) : List Op → List TM.OpX
   | [] => []
   | op :: rest =>
     (match s.minter with
      | some m => tmOps s m op
      | none => []) ++ tmRunOps (step' s op) rest
 
-/-- every message of the history has an aspect counterpart -/
+/-- no new source contract appears along the history -/
 def QuietRun (s : State) : List Op → Prop
   | [] => True
   | op :: rest => TmQuiet s op ∧ QuietRun (step' s op) rest
 
-theorem tm_run_append (w : TM.State) (a b : List TM.Op) : TM.run w (a ++ b) = TM.run (TM.run w a) b := by
-  simp [TM.run, List.foldl_append]
+theorem tm_run_append (w : TM.State) (a b : List TM.OpX) : TM.runX w (a ++ b) = TM.runX (TM.runX w a) b := by
+  simp [TM.runX, List.foldl_append]
 
 /-- **lift to runs** -/
 theorem tm_run (s : State) (m : Minter) (hm : s.minter = some m) (hi : Supply.FInv m.supply) (ops : List Op)
     (hq : QuietRun s ops) :
     ∃ m', (run s ops).minter = some m' ∧ Supply.FInv m'.supply ∧
-      TM.run (tmOf s m) (tmRunOps s ops) = tmOf (run s ops) m' := by
+      TM.runX (tmOf s m) (tmRunOps s ops) = tmOf (run s ops) m' := by
   induction ops generalizing s m with
   | nil => exact ⟨m, hm, hi, rfl⟩
   | cons op ops ih =>
@@ -438,7 +439,7 @@ theorem tm_send_step {s s' : State} {m : Minter} {caller coll : Addr} {id : Nat}
   · rw [tmOps, if_pos hacc] at h0; cases h0
   · rw [tmOps, if_pos hacc] at h1
     simp only [tmCore, List.cons.injEq, and_true] at h1
-    rw [h1]; exact hstep
+    rw [← h1] at hstep; exact hstep
 
 /-- with no approvals and no operators, "may send" is "is the owner" -/
 theorem canSend_owner {s : State} {m : Minter} {c : Addr} {id : Nat} {who : Addr}
@@ -458,7 +459,7 @@ end TMF
 theorem C17_fulltm_refines (s : TMF.State) (m : TMF.Minter) (hm : s.minter = some m) (hi : Supply.FInv m.supply) (op : TMF.Op)
     (hq : TMF.TmQuiet s op) :
     ∃ m', (TMF.step' s op).minter = some m' ∧
-      TM.run (TMF.tmOf s m) (TMF.tmOps s m op) = TMF.tmOf (TMF.step' s op) m' :=
+      TM.runX (TMF.tmOf s m) (TMF.tmOps s m op) = TMF.tmOf (TMF.step' s op) m' :=
   TMF.tm_sim s m hm hi op hq
 
 /-- "strictly after the start time … only a required collection contract can credit a deposit … a recipient at its per-address
@@ -531,10 +532,12 @@ theorem C17_fulltm_direct_receive_rejected (s : TMF.State) (m : TMF.Minter) (hm 
       rw [← h1] at hstep
       obtain ⟨e, he⟩ := C17_direct_receive_rejected (s := TMF.tmOf s m) (caller := caller) (sender := sender) (id := id)
         (rcp := recipient) (msgOk := msgOk) (picked := TMF.pickedId m picked) huser
-      rw [he] at hstep; cases hstep
+      have hstep' : TM.step (TMF.tmOf s m) (.receive caller sender id recipient msgOk (TMF.pickedId m picked)) =
+          .ok (TMF.tmOf s' m') := hstep
+      rw [he] at hstep'; cases hstep' 
 
 /-- the ledger invariant over composite histories: from any state whose ledger is bounded (e.g. right after `CreateMinter`),
-after ANY history with aspect counterparts nobody is credited more than `mint_tokens` asks from a collection, and nothing at all
+after ANY history (every message kind; no new source contract) nobody is credited more than `mint_tokens` asks from a collection, and nothing at all
 for a collection that is not listed -/
 theorem C17_fulltm_ledger_bounded (s : TMF.State) (m : TMF.Minter) (hm : s.minter = some m) (hi : Supply.FInv m.supply)
     (h0 : ∀ r c, m.ledger r c ≤ (TMF.requiredOf m.mintTokens c).getD 0) (ops : List TMF.Op) (hq : TMF.QuietRun s ops)
@@ -545,7 +548,7 @@ theorem C17_fulltm_ledger_bounded (s : TMF.State) (m : TMF.Minter) (hm : s.minte
     intro r c
     show m.ledger r c ≤ (TM.requiredOf m.mintTokens c).getD 0
     rw [TMF.requiredOf_eq]; exact h0 r c
-  have := C17_ledger_bounded (TMF.tmOf s m) hb (TMF.tmRunOps s ops) r c
+  have := C17_x_ledger_bounded (TMF.tmOf s m) hb (TMF.tmRunOps s ops) r c
   rw [heq] at this
   refine ⟨m', hm', ?_⟩
   have h2 : (TM.requiredOf (TMF.tmOf s m).required c).getD 0 = (TMF.requiredOf m.mintTokens c).getD 0 := by
@@ -570,11 +573,12 @@ theorem C17_fulltm_reset (s s' : TMF.State) (m : TMF.Minter) (hm : s.minter = so
     rw [TMF.requiredOf_eq]; exact h0 r c
   exact C17_reset (TMF.tmOf s m) hb [] (s' := TMF.tmOf s' m') hstep hminted c
 
-/-- "mints … exactly when", the other direction: a composite message (with an aspect counterpart) that changes the minter's
-collection is a deposit or an airdrop by the admin; nothing else, by anybody, mints -/
+/-- "mints … exactly when", the other direction: a composite message after which the minter's collection has MORE tokens is a
+deposit or an airdrop by the admin; nothing else, by anybody, mints (a holder's transfer moves an existing token, a holder's burn
+removes one, `Shuffle` and governance do not touch the collection) -/
 theorem C17_fulltm_mint_only_via_deposit_or_admin (s s' : TMF.State) (m m' : TMF.Minter) (hm : s.minter = some m)
     (hi : Supply.FInv m.supply) (op : TMF.Op) (hq : TMF.TmQuiet s op) (h : TMF.step s op = .ok s')
-    (hm' : s'.minter = some m') (hchg : m'.supply.coll.count ≠ m.supply.coll.count) :
+    (hm' : s'.minter = some m') (hchg : m.supply.coll.count < m'.supply.coll.count) :
     (∃ caller coll id contract rcp msgOk picked, op = .send caller coll id contract rcp msgOk picked) ∨
     (∃ caller sender id rcp msgOk picked, op = .receive caller sender id rcp msgOk picked) ∨
     (∃ funds rcpt picked, op = .mintTo m.admin funds rcpt picked) ∨
@@ -584,23 +588,27 @@ theorem C17_fulltm_mint_only_via_deposit_or_admin (s s' : TMF.State) (m m' : TMF
   have hacc := TMF.accepted_of_ok h
   rcases hcase with ⟨_, heq⟩ | ⟨aop, h1, hstep⟩
   · exfalso
-    apply hchg
-    exact congrArg TM.State.tgtNum heq
-  · have hch : (TMF.tmOf s' m').tgtNum ≠ (TMF.tmOf s m).tgtNum ∨ (TMF.tmOf s' m').tgtOwner ≠ (TMF.tmOf s m).tgtOwner :=
-      Or.inl hchg
+    have : m'.supply.coll.count = m.supply.coll.count := congrArg TM.State.tgtNum heq
+    omega
+  · have hnew : (TMF.tmOf s m).tgtNum < (TMF.tmOf s' m').tgtNum ∨
+        ∃ id, (TMF.tmOf s m).tgtOwner id = none ∧ (TMF.tmOf s' m').tgtOwner id ≠ none := Or.inl hchg
     rw [TMF.tmOps, if_pos hacc] at h1
-    rcases C17_mint_only_via_deposit_or_admin hstep hch with
-      ⟨a1, a2, a3, a4, a5, a6, a7, rfl, _⟩ | ⟨a1, a2, a3, a4, a5, a6, rfl, _⟩ | ⟨a1, a2, a3, rfl⟩ | ⟨a1, a2, a3, rfl⟩
+    obtain ⟨o, rfl, ho⟩ := C17_x_mint_only_via_deposit_or_admin hstep hnew
+    rcases ho with ⟨a1, a2, a3, a4, a5, a6, a7, rfl, _⟩ | ⟨a1, a2, a3, a4, a5, a6, rfl, _⟩ | ⟨a1, a2, a3, rfl⟩ | ⟨a1, a2, a3, rfl⟩
     · cases op <;> simp [TMF.tmCore] at h1
-      exact Or.inl ⟨_, _, _, _, _, _, _, rfl⟩
+      · exact Or.inl ⟨_, _, _, _, _, _, _, rfl⟩
+      · split at h1 <;> simp at h1
     · cases op <;> simp [TMF.tmCore] at h1
-      exact Or.inr (Or.inl ⟨_, _, _, _, _, _, rfl⟩)
+      · exact Or.inr (Or.inl ⟨_, _, _, _, _, _, rfl⟩)
+      · split at h1 <;> simp at h1
     · cases op <;> simp [TMF.tmCore] at h1
-      obtain ⟨rfl, _⟩ := h1
-      exact Or.inr (Or.inr (Or.inl ⟨_, _, _, rfl⟩))
+      · obtain ⟨rfl, _⟩ := h1
+        exact Or.inr (Or.inr (Or.inl ⟨_, _, _, rfl⟩))
+      · split at h1 <;> simp at h1
     · cases op <;> simp [TMF.tmCore] at h1
-      obtain ⟨rfl, _⟩ := h1
-      exact Or.inr (Or.inr (Or.inr ⟨_, _, _, rfl⟩))
+      · obtain ⟨rfl, _⟩ := h1
+        exact Or.inr (Or.inr (Or.inr ⟨_, _, _, rfl⟩))
+      · split at h1 <;> simp at h1
 
 /-! ## C02 — an airdrop charges exactly the airdrop price and disburses all of it; a deposit moves no coins
 
